@@ -34,6 +34,12 @@ def skeleton(facts, b, depth=0):
         nm = norm_name(r["path"] if not r.get("local") else r["path"])
         if fn["name"] in ERASED or r["path"].rsplit("::", 1)[-1] in ERASED:
             continue
+        # a crate-local function that is itself nothing but the unmasking / a pointer cast (`promotable_even_buf(shared)`)
+        if r.get("local") and r.get("did") is not None and depth < 3:
+            cb = facts.by_did.get(r["did"])
+            if cb is not None and cb.kind in ("fn", "assoc_fn") and cb.did != b.did and len(cb.blocks) <= 12 and cb.arg_count <= 2 \
+                    and skeleton(facts, cb, depth + 1) == [] and not any(st["k"] == "assign" and st["pl"]["p"] for blk in cb.blocks for st in blk["stmts"]):
+                continue
         loc = (bi, len(b.blocks[bi]["stmts"]))
         shapes = []
         for a in t["args"]:
@@ -76,6 +82,42 @@ def skeleton(facts, b, depth=0):
         if c.kind == "closure":
             out.extend(("closure:" + x[0],) + x[1:] for x in skeleton(facts, c, depth + 1))
     return sorted(out)
+
+
+def parity_by_paths(facts, b0, even, odd, is_tagged):
+    """[(bb, vtable static, tagged?, parity, nonempty)] per distinct outcome over the feasible paths of the inlined views"""
+    from .inline import views
+    from .flow import feasible_paths_to, PathExprBuilder, path_relations
+    for ib in views(facts, b0, keep_names=("ptr_map",)):
+        outcomes = {}
+        for bi, blk in enumerate(ib.blocks):
+            for si, s in enumerate(blk["stmts"]):
+                if not (s["k"] == "assign" and s["rv"]["k"] == "agg" and s["rv"].get("adt") == "bytes::Bytes") or blk["cleanup"]:
+                    continue
+                f = dict(zip(s["rv"]["fields"], s["rv"]["ops"]))
+                for path in feasible_paths_to(ib, bi, limit=600):
+                    pe = PathExprBuilder(ib, facts, path)
+                    data = canon(pe.operand(f["data"], (bi, si)))
+                    vt = canon(pe.operand(f["vtable"], (bi, si)))
+                    names = [y[1] for y in walk(vt) if y[0] == "static" and y[1] in (even, odd)]
+                    if len(names) != 1:
+                        continue            # e.g. Bytes::new() on the empty path (inlined): not a promotable construction
+                    parity = None
+                    nonempty = False
+                    for r in path_relations(ib, facts, path):
+                        if r[0] in ("eq", "ne") and isinstance(r[2], tuple):
+                            x, c = canon(r[1]), canon(r[2])
+                            if isinstance(x, tuple) and x[0] == "bin" and x[1] == "BitAnd" and isinstance(c, tuple) and c[0] == "const" and c[1] in (0, 1) \
+                                    and any(isinstance(y, tuple) and y[0] == "const" and y[1] == 1 for y in (x[2], x[3])):
+                                parity = c[1] if r[0] == "eq" else 1 - c[1]
+                        if r[0] == "truth" and "is_empty" in str(r[1]) and r[2] == 0:
+                            nonempty = True
+                        if r[0] == "ne" and "len" in str(r[1]) + str(r[2]) and (canon(r[2]) == ("const", 0) or canon(r[1]) == ("const", 0)):
+                            nonempty = True
+                    outcomes[(names[0], is_tagged(data), parity, nonempty)] = bi
+        if outcomes:
+            return [(bi, vt, tg, par, ne) for (vt, tg, par, ne), bi in sorted(outcomes.items(), key=lambda kv: str(kv[0]))]
+    return None
 
 
 def run(facts):
@@ -172,6 +214,12 @@ def run(facts):
                     others = [o for o in ops if o is not vts[0]]
                     pairing(bi, ("agg", "tuple", tuple(others)), vts[0])
     key = "From<Box<[u8]>>|parity dispatch"
+    if len(aggs) != 2 or probs:
+        # the choice may be spread over helpers (`Parity::of(ptr)`, `parity.tag(ptr)`, `parity.vtable()`): evaluate every
+        # feasible path of the inlined view to the handle construction, where data and vtable read as what that path chose
+        alt = parity_by_paths(facts, b, even[0], odd[0], is_tagged)
+        if alt is not None:
+            aggs, probs = alt, []
     if len(aggs) != 2:
         probs.append("expected two handle constructions (even / odd), found %d" % len(aggs))
     for (bi, vt, tagged, parity, nonempty) in aggs:
